@@ -126,7 +126,7 @@ def handle_kani_failure(prop, o, r, rec, tier, violations, known_hits, inconclus
         if last["reproduced"]:
             reproduced = last
             break
-    if reproduced is None and last is not None and last["reproduced"] is False:
+    if reproduced is None and last is not None and last["reproduced"] is False and tier == "thorough":
         # dev profile did not reproduce: try release (wrap-around is a release-profile behaviour)
         for vals in sets:
             last = replay.replay_kani_model(prop, o.harness, vals, release=True)
